@@ -437,9 +437,9 @@ class PhysicalUnit(object):
 
                 if all([x % rounded == 0 for x in self._powers]):
                     f = self._factor**power
-                    p = [x / rounded for x in self._powers]
+                    p = [x // rounded for x in self._powers]
                     if all([x % rounded == 0 for x in self._names.values()]):
-                        names = self._names / rounded
+                        names = NumberDict((k, v // rounded) for k, v in self._names.items())
                     else:
                         names = NumberDict()
                         if f != 1.:
